@@ -99,6 +99,14 @@ def run(chk):
             for op in ("app:" + bd, "ins:%d:%s" % (n_, bd), "ins:0:" + bd, "ins:1:" + bd, "rep:%d:0:%s" % (n_, bd), "rep:0:1:" + bd, "set:" + bd,
                        "rep:%d:M:%s" % (n_ - 1, bd)):
                 cases.append((kind, content, [op, "len", "sub:0:M", "app:k", "sub:%d:2" % (n_ - 1)]))
+    # the same calls on a node at the deepest place the parser allows (128 elements): what a call needs from the parent - split_text
+    # puts the tail there - works at the limit as anywhere else (round-9 seed C16-M refused every new child of an element at the limit)
+    for kind in ("deeptext", "deepcdata"):
+        for content in ("abcd", "a\u00e9\U0001d4b3"):
+            n_ = len(content)
+            for o in range(0, n_ + 2):
+                cases.append((kind, content, ["split:%d" % o, "len", "sub:0:M"]))
+            cases.append((kind, content, ["app:z", "ins:1:q", "del:0:1", "rep:0:1:k", "set:w", "len"]))
     n_exh = len(cases)
     lines = [lib.req("chardata", k, c, *ops) for k, c, ops in cases]
     impl, model = lib.both(lines, resume=True)
